@@ -311,9 +311,10 @@ pub fn gen_net(rng: &mut Rng, opts: &GenOpts) -> NetCfg {
     // flat gradient in the backward pass (shape panic in the library)
     for i in 0..layers.len() {
         let next_dense = i + 1 == layers.len() || matches!(layers[i + 1], LayerCfg::Dense { .. });
-        if let LayerCfg::Feedback { layers: inner, outskips, .. } = &mut layers[i] {
+        if let LayerCfg::Feedback { layers: inner, inskips, outskips, .. } = &mut layers[i] {
             if next_dense && !matches!(inner[0], LayerCfg::Dense { .. }) {
                 *outskips = false;
+                *inskips = false;
             }
         }
     }
